@@ -4,7 +4,9 @@ set -e
 cd "$(dirname "$0")/.."
 b="$1"
 git merge --no-edit "$b" >/dev/null 2>&1 || true
-git checkout --ours MANIFEST.json lean/FileD/Props/All.lean 2>/dev/null || true
+git checkout --ours MANIFEST.json lean/FileD/Props/All.lean harness/go.mod 2>/dev/null || true
+git checkout HEAD -- harness/go.mod 2>/dev/null || true
+if git diff --name-only --diff-filter=U | grep -v 'MANIFEST.json\|All.lean\|go.mod' | grep .; then echo "UNRESOLVED CONFLICTS above - fix by hand"; exit 1; fi
 python3 tools/regen_all.py >/dev/null
 python3 tools/mkmanifest.py
 git add -A
